@@ -186,7 +186,30 @@ func (e *Engine) define(prefix, sort, term string) string {
 	return nm
 }
 
+// assume records a fact that constrains freshly introduced symbols only (results of calls, allocations, havoced state):
+// such a fact is satisfiable whatever the older symbols are, so it can be stated for every path.
 func (e *Engine) assume(term string) {
+	if term == "" || term == "true" {
+		return
+	}
+	e.facts = append(e.facts, Fact{Term: term})
+}
+
+// assumePC records a fact about a *defined* term (a value read from the heap): it holds under the path condition of
+// the instruction being executed only. On a path that is not taken the heap term is junk (merges fall through to an
+// arbitrary branch), and an unconditional type invariant about it could contradict the facts of the paths that are taken.
+func (e *Engine) assumePC(term string) {
+	if term == "" || term == "true" {
+		return
+	}
+	if e.curPC != "" && e.curPC != "true" {
+		term = fmt.Sprintf("(=> %s %s)", e.curPC, term)
+	}
+	e.facts = append(e.facts, Fact{Term: term})
+}
+
+// assumeGlobal records a fact that holds on every path (relations between path conditions, axioms).
+func (e *Engine) assumeGlobal(term string) {
 	if term == "" || term == "true" {
 		return
 	}
@@ -202,7 +225,7 @@ func (e *Engine) assumeIf(pc, term string) {
 		e.assume(term)
 		return
 	}
-	e.assume(fmt.Sprintf("(=> %s %s)", pc, term))
+	e.assumeGlobal(fmt.Sprintf("(=> %s %s)", pc, term))
 }
 
 // global declares (once) a named constant.
@@ -488,7 +511,7 @@ func (e *Engine) fieldLoc(parent *Loc, idx int) *Loc {
 		if !e.once[key] {
 			e.once[key] = true
 			e.useSub = true
-			e.assume(fmt.Sprintf("(and (= (subp %s) %s) (= (subi %s) %d) (not (= %s 0)) (= (> %s pre) (> %s pre)))", ref, parent.Ref, ref, idx, ref, ref, parent.Ref))
+			e.assumeGlobal(fmt.Sprintf("(and (= (subp %s) %s) (= (subi %s) %d) (not (= %s 0)) (= (> %s pre) (> %s pre)))", ref, parent.Ref, ref, idx, ref, ref, parent.Ref))
 		}
 		return &Loc{Kind: LObj, Ref: ref, T: ft}
 	}
@@ -612,11 +635,11 @@ func (e *Engine) load(h *Heap, l *Loc) Val {
 			e.define("ld.l", "Int", e.loadScalar(h, l, "Int", ".l")),
 			e.define("ld.c", "Int", e.loadScalar(h, l, "Int", ".c")),
 		}
-		e.assume(e.sliceInv(s))
+		e.assumePC(e.sliceInv(s))
 		if e.pristine(h, l, ".b") {
-			e.assume(e.preFact(l, s.B))
+			e.assumePC(e.preFact(l, s.B))
 		}
-		e.assume(fmt.Sprintf("(<= %s %s)", s.B, e.water()))
+		e.assumePC(fmt.Sprintf("(<= %s %s)", s.B, e.water()))
 		return s
 	case *types.Struct:
 		sv := StructV{}
@@ -631,9 +654,9 @@ func (e *Engine) load(h *Heap, l *Loc) Val {
 		}
 		r := e.define("ld.p", "Int", t)
 		if e.pristine(h, l, "") {
-			e.assume(e.preFact(l, r))
+			e.assumePC(e.preFact(l, r))
 		}
-		e.assume(fmt.Sprintf("(<= %s %s)", r, e.water()))
+		e.assumePC(fmt.Sprintf("(<= %s %s)", r, e.water()))
 		return PtrV{&Loc{Kind: LObj, Ref: r, T: u.Elem()}}
 	case *types.Array:
 		e.unsupp["load-array:"+tname(l.T)]++
@@ -649,13 +672,13 @@ func (e *Engine) load(h *Heap, l *Loc) Val {
 	}
 	v := e.define("ld", so, t0)
 	if rf := rangeFact(l.T, v); rf != "" {
-		e.assume(rf)
+		e.assumePC(rf)
 	}
 	if so == "Int" && !isInt(l.T) {
 		if e.pristine(h, l, "") {
-			e.assume(e.preFact(l, v))
+			e.assumePC(e.preFact(l, v))
 		}
-		e.assume(fmt.Sprintf("(<= %s %s)", v, e.water()))
+		e.assumePC(fmt.Sprintf("(<= %s %s)", v, e.water()))
 	}
 	return Sc{v}
 }
